@@ -24,6 +24,7 @@ func main() {
 	tier := flag.String("tier", "quick", "quick|thorough")
 	seed := flag.Int("seed", 0, "seed (orders sensitivity variants only)")
 	verif := flag.String("verif", "/verif", "verif directory (evidence, known findings)")
+	out := flag.String("out", "", "directory receiving evidence/ (default: the verif directory)")
 	list := flag.Bool("list", false, "list properties with a check")
 	flag.Parse()
 	if *list {
@@ -63,6 +64,9 @@ func main() {
 	if *tier == "thorough" {
 		runThoroughExtras(c, r, *prop, *repo, extra)
 	}
-	code := r.Finish(c, *tier, *seed, time.Since(start).Seconds(), *verif, extra)
+	if *out == "" {
+		*out = *verif
+	}
+	code := r.Finish(c, *tier, *seed, time.Since(start).Seconds(), *verif, *out, extra)
 	os.Exit(code)
 }
